@@ -1,6 +1,6 @@
 """C10 — POO routes each round to one base learner and scores learners by true means."""
 from .. import configs
-from ..algorun import replay_algo, run_algo_task
+from ..algorun import bystander_tasks, replay_algo, run_algo_task
 from ..ledger import recording_classes
 from ..refs.wrappers import PooOracle, stub_classes
 
@@ -27,6 +27,7 @@ def tasks(tier, seed):
                 lab = "%s/%s/%s" % (base, rm, "stub" if stub else "real")
                 ts.append({"kind": "algo", "label": "full/" + lab, "cfg": cfg, "mode": "full", "T": 8 if tier == "quick" else 10,
                            "R": list(configs.R3), "stub": stub, "cost": 4})
+                ts += bystander_tasks(lab, configs.shifted(cfg), [1.0, -1.0], T_long=100, T_short=16, k=1 if tier == "quick" else 2, stub=stub)
                 if tier == "quick":
                     T = (400 if rm == 0.9 else 150) if stub else 100
                 else:
